@@ -582,10 +582,45 @@ def fitterFit (S : Schema) (doc : Node) (rf rt : RPos) (sl : Slice) (fuel : Nat)
   | none => pure none
   | some c => fitEmit rf rt moveInline placedSize c.1 c.2
 
-/-- the fuel `replaceStep` gives the `fit` loop: every iteration places, opens or drops something of
-    the slice, or opens wrapper nodes (bounded by the number of node types) -/
-def fitFuel (S : Schema) (sl : Slice) : Nat :=
-  (fsize sl.content + sl.openStart + 4) * (S.nodes.size + 4)
+/-! ### the fuel of the `fit` loop (proved sufficient in Proofs/FitTerm.lean) -/
+
+mutual
+/-- number of nodes of a tree -/
+def Node.ncount : Node → Nat
+  | .elem _ _ _ kids => 1 + fcount kids
+  | _ => 1
+def fcount : List Node → Nat
+  | [] => 0
+  | n :: ns => n.ncount + fcount ns
+end
+
+mutual
+/-- height of a tree (a node without children has height 1) -/
+def Node.height : Node → Nat
+  | .elem _ _ _ kids => 1 + fheight kids
+  | _ => 1
+def fheight : List Node → Nat
+  | [] => 0
+  | n :: ns => max n.height (fheight ns)
+end
+
+/-- how far `open_more` can ever raise `open_start`: the height of the content (or the present
+    `open_start`, should it be larger) -/
+def Slice.openBound (u : Slice) : Nat := max (fheight u.content) u.openStart
+
+/-- the termination measure of the loop `while self.unplaced.size`, lexicographic in
+    (number of unplaced nodes, how often `open_more` can still succeed, `c`) flattened into one
+    number; `c ≤ open_start + 1` counts the wrapper-opening rounds that place nothing
+    (Proofs/FitTerm.lean: `cpot`) -/
+def fitMeasure (u : Slice) (c : Nat) : Nat :=
+  fcount u.content * ((u.openBound + 1) * (u.openBound + 2)) + (u.openBound - u.openStart) * (u.openBound + 2) + c
+
+/-- the fuel `replaceStep` gives the `fit` loop: every iteration places or drops a node of the slice,
+    or opens it one level deeper, or opens wrapper nodes without placing anything (at most
+    `open_start + 1` times in a row).  `fitLoop_terminates`: this is enough unless the loop reaches
+    the one state it maps to itself (empty content, `open_end > 0`). -/
+def fitFuel (_S : Schema) (sl : Slice) : Nat :=
+  fitMeasure sl (sl.openStart + 1) + 1
 
 /-- `replace_step(doc, from, to, slice)`; `.ok none` = returns `None` -/
 def replaceStep (S : Schema) (doc : Node) (f t : Nat) (sl : Slice) : FM (Option Step) :=
